@@ -34,3 +34,72 @@ package ordset
 //@   ensures! size: ok ==> leaf.size == old(leaf.size) || leaf.size == old(leaf.size) + 1
 //@   ensures! existed: ok && leaf.size == old(leaf.size) ==> forall k :: 0 <= k && k < leaf.size ==> leaf.slots[k] == old(leaf.slots[k])
 //@   ensures! keeps: ok && leaf.size == old(leaf.size) + 1 ==> forall k :: 0 <= k && k < old(leaf.size) ==> leaf.slots[k < p ? k : k + 1] == old(leaf.slots[k])
+
+// ---- tree level ---------------------------------------------------------------------------
+// A Set is either just its embedded leaf (tree == nil) or a one level tree of
+// leaves: slot 0 has the empty key and the embedded leaf, every later slot's
+// key is the first element of its leaf, and all elements of a leaf are below
+// the key of the next slot.
+//@ spec leafLast(l *leafNode) string = l.slots[l.size - 1]
+//@ spec wfTree(t *treeNode) bool = 1 <= t.size && t.size <= 129 && t.slots[0].key == "" && (forall i :: 0 <= i && i < t.size ==> t.slots[i].leaf != nil && wfLeaf(t.slots[i].leaf) && t.slots[i].leaf.size >= 1) && (forall i :: 1 <= i && i < t.size ==> t.slots[i].key == t.slots[i].leaf.slots[0]) && (forall i, j :: 0 <= i && i < j && j < t.size ==> leafLast(t.slots[i].leaf) < t.slots[j].key)
+//@ spec wfSet(set *Set) bool = (set.tree == nil ==> wfLeaf(set.leaf)) && (set.tree != nil ==> wfTree(set.tree))
+
+//@ func (tree *treeNode) searchBinary(key) (r)
+//@   requires tree != nil && wfTree(tree)
+//@   ensures! range: 1 <= r && r <= tree.size
+//@   ensures! below: forall k :: 0 <= k && k < r ==> tree.slots[k].key <= key
+//@   ensures! above: forall k :: r <= k && k < tree.size ==> tree.slots[k].key > key
+//@   loop 0 invariant 0 <= i && i <= j && j <= tree.size
+//@   loop 0 invariant forall k :: 0 <= k && k < i ==> tree.slots[k].key <= key
+//@   loop 0 invariant forall k :: j <= k && k < tree.size ==> tree.slots[k].key > key
+//@   loop 0 decreases j - i
+
+//@ func (tree *treeNode) search(key) (ti, leaf, li)
+//@   requires tree != nil && wfTree(tree)
+//@   ensures! leaf: 0 <= ti && ti < tree.size && leaf == tree.slots[ti].leaf && tree.slots[ti].key <= key && (ti + 1 < tree.size ==> key < tree.slots[ti + 1].key)
+//@   ensures! pos: 0 <= li && li <= leaf.size && (forall k :: 0 <= k && k < li ==> leaf.slots[k] < key) && (forall k :: li <= k && k < leaf.size ==> leaf.slots[k] >= key)
+
+//@ func (set *Set) search(key) (ti, leaf, li)
+//@   requires set != nil && wfSet(set)
+//@   ensures! leaf: leaf != nil && wfLeaf(leaf) && (set.tree == nil ==> leaf == set.leaf && ti == 0) && (set.tree != nil ==> 0 <= ti && ti < set.tree.size && leaf == set.tree.slots[ti].leaf && set.tree.slots[ti].key <= key && (ti + 1 < set.tree.size ==> key < set.tree.slots[ti + 1].key))
+//@   ensures! pos: 0 <= li && li <= leaf.size && (forall k :: 0 <= k && k < li ==> leaf.slots[k] < key) && (forall k :: li <= k && k < leaf.size ==> leaf.slots[k] >= key)
+
+// Contains(k) <==> k is an element of some leaf (over the whole set)
+//@ func (set *Set) Contains(key) (r)
+//@   requires set == nil || wfSet(set)
+//@   ensures! nil_set: set == nil ==> !r
+//@   ensures! single: set != nil && set.tree == nil ==> (r <==> member(set.leaf, key))
+//@   ensures! tree_found: set != nil && set.tree != nil ==> forall ti, k :: 0 <= ti && ti < set.tree.size && 0 <= k && k < set.tree.slots[ti].leaf.size && set.tree.slots[ti].leaf.slots[k] == key ==> r
+//@   ensures! tree_sound: set != nil && set.tree != nil && r ==> exists ti, k :: 0 <= ti && ti < set.tree.size && 0 <= k && k < set.tree.slots[ti].leaf.size && set.tree.slots[ti].leaf.slots[k] == key
+
+//@ func (set *Set) Empty() (r)
+//@   requires set != nil && wfSet(set)
+//@   ensures! r <==> set.tree == nil && set.leaf.size == 0
+
+// AnyInRange(from, to) <==> some element e of the set has from <= e <= to
+//@ func (set *Set) AnyInRange(from, to) (r)
+//@   requires set == nil || wfSet(set)
+//@   ensures! nil_set: set == nil ==> !r
+//@   ensures! single_complete: set != nil && set.tree == nil ==> forall k :: 0 <= k && k < set.leaf.size && from <= set.leaf.slots[k] && set.leaf.slots[k] <= to ==> r
+//@   ensures! single_sound: set != nil && set.tree == nil && r ==> exists k :: 0 <= k && k < set.leaf.size && from <= set.leaf.slots[k] && set.leaf.slots[k] <= to
+//@   ensures! tree_complete: set != nil && set.tree != nil ==> forall ti, k :: 0 <= ti && ti < set.tree.size && 0 <= k && k < set.tree.slots[ti].leaf.size && from <= set.tree.slots[ti].leaf.slots[k] && set.tree.slots[ti].leaf.slots[k] <= to ==> r
+//@   ensures! tree_sound: set != nil && set.tree != nil && r ==> exists ti, k :: 0 <= ti && ti < set.tree.size && 0 <= k && k < set.tree.slots[ti].leaf.size && from <= set.tree.slots[ti].leaf.slots[k] && set.tree.slots[ti].leaf.slots[k] <= to
+
+// treeNode.insert links a new leaf at its ordered position (p), keeping every
+// other slot, and preserves the tree invariant
+//@ func (tree *treeNode) insert(key, leaf)
+//@   requires tree != nil && tree.size <= 128 && leaf != nil
+//@   requires treewf: wfTree(tree)
+//@   requires leafwf: wfLeaf(leaf) && leaf.size >= 1 && key == leaf.slots[0]
+//@   requires order: forall a :: 0 <= a && a < tree.size ==> tree.slots[a].leaf != leaf && (tree.slots[a].key <= key ==> leafLast(tree.slots[a].leaf) < key) && (tree.slots[a].key > key ==> leafLast(leaf) < tree.slots[a].key)
+//@   modifies tree.slots, tree.size
+//@   ghost p int = i
+//@   ensures! size: tree.size == old(tree.size) + 1 && 1 <= p && p <= old(tree.size)
+//@   ensures! kept_before: forall k :: 0 <= k && k < p ==> tree.slots[k] == old(tree.slots[k])
+//@   ensures! placed: tree.slots[p].key == key && tree.slots[p].leaf == leaf
+//@   ensures! kept_after: forall k :: p < k && k < tree.size ==> tree.slots[k] == old(tree.slots[k - 1])
+//@   ensures! wf: wfTree(tree)
+
+// Set.split and Set.Insert (routing to a leaf, dividing a full leaf) are NOT under
+// contract: the precondition wfTree at split's call of treeNode.insert did not
+// discharge within the solver budget (undecided, not refuted).
